@@ -436,10 +436,34 @@ impl std::ops::Neg for Quantity {
     }
 }
 
+impl Quantity {
+    /// Convert both operands to a common unit that does not depend on the
+    /// order of the operands, so that comparisons are symmetric.
+    fn in_common_unit(&self, other: &Self) -> Result<(Number, Number)> {
+        if self.unit == other.unit {
+            return Ok((self.value, other.value));
+        }
+        let (_, self_factor) = self.unit.to_base_unit_representation();
+        let (_, other_factor) = other.unit.to_base_unit_representation();
+        let common = if self_factor.to_f64() < other_factor.to_f64()
+            || (self_factor.to_f64() == other_factor.to_f64()
+                && self.unit.to_string() <= other.unit.to_string())
+        {
+            &self.unit
+        } else {
+            &other.unit
+        };
+        Ok((
+            self.convert_to(common)?.value,
+            other.convert_to(common)?.value,
+        ))
+    }
+}
+
 impl PartialEq for Quantity {
     fn eq(&self, other: &Self) -> bool {
-        if let Ok(other_converted) = other.convert_to(self.unit()) {
-            self.value == other_converted.value
+        if let Ok((lhs, rhs)) = self.in_common_unit(other) {
+            lhs == rhs
         } else {
             false
         }
@@ -448,8 +472,8 @@ impl PartialEq for Quantity {
 
 impl PartialOrd for Quantity {
     fn partial_cmp(&self, other: &Self) -> Option<std::cmp::Ordering> {
-        let other_converted = other.convert_to(self.unit()).ok()?;
-        self.value.partial_cmp(&other_converted.value)
+        let (lhs, rhs) = self.in_common_unit(other).ok()?;
+        lhs.partial_cmp(&rhs)
     }
 }
 
@@ -477,13 +501,12 @@ impl Quantity {
             return QuantityOrdering::NanOperand;
         }
 
-        let Ok(other_converted) = other.convert_to(self.unit()) else {
+        let Ok((lhs, rhs)) = self.in_common_unit(other) else {
             return QuantityOrdering::IncompatibleUnits;
         };
 
-        let cmp = self
-            .value
-            .partial_cmp(&other_converted.value)
+        let cmp = lhs
+            .partial_cmp(&rhs)
             .expect("unexpectedly got a None partial_cmp from non-NaN arguments");
 
         QuantityOrdering::Ok(cmp)
